@@ -1,16 +1,40 @@
 //verif:pkg pkg/filetracker
-//verif:assume offsets >= 0, lengths >= 1, offset+length fits a byte (one-byte radix keys), no int64 overflow
-//verif:cover VerifC22Seq two-writes
+//verif:assume offsets >= 0, lengths >= 1 (no caller exists: TFile.WriteAt is a stub; the obvious precondition), offset+length <= 255+64 so no int64 overflow
+//verif:assume go-immutable-radix executed from source; sync.Mutex modelled
+//verif:cover VerifC22Seq writes-done overlap-left adjacent nested
+//verif:cover VerifC22Step three-ranges merged-two
 package filetracker
 
 import iradix "github.com/hashicorp/go-immutable-radix"
 
-// VerifC22Seq: k writes, then probe an offset; oracle = union of written ranges.
+func vModified(offs, lens []int64, p int64) bool {
+	m := false
+	for i := range offs {
+		m = vOr(m, vAnd(offs[i] <= p, p < offs[i]+lens[i]))
+	}
+	return m
+}
+
+// vProbe checks getRangeToRead at an arbitrary offset against the oracle.
+func vProbe(t *TFile, offs, lens []int64) {
+	x := vI64("x", 0, 300)
+	l := vI64("probeLen", 1, 64)
+	c, mut := t.getRangeToRead(x, l)
+	vObserve("c", c)
+	vObserve("mut", mut)
+	vAssert(mut == vModified(offs, lens, x), "modified-iff-written")
+	vAssert(vAnd(c >= 1, c <= l), "extent-in-range")
+	d := vI64("d", 0, 64)
+	vAssume(d < c)
+	vAssert(vModified(offs, lens, x+d) == vModified(offs, lens, x), "extent-does-not-cross-boundary")
+}
+
+// VerifC22Seq: k writes from the empty tracker, then a probe.
 func VerifC22Seq() {
-	vBudget(3000000)
-	k := 2
+	vBudget(6000000)
+	k := 3
 	if vThorough() {
-		k = 3
+		k = 4
 	}
 	t := &TFile{tracker: iradix.New()}
 	offs := make([]int64, k)
@@ -20,22 +44,67 @@ func VerifC22Seq() {
 		lens[i] = vI64("len", 1, 55)
 		t.trackWrite(offs[i], lens[i])
 	}
-	vCover("two-writes")
-	x := vI64("x", 0, 255)
-	l := vI64("probeLen", 1, 64)
-	modified := func(p int64) bool {
-		m := false
-		for i := 0; i < k; i++ {
-			m = vOr(m, vAnd(offs[i] <= p, p < offs[i]+lens[i]))
-		}
-		return m
+	vCover("writes-done")
+	if vAnd(offs[1] < offs[0], offs[1]+lens[1] > offs[0]) {
+		vCover("overlap-left")
 	}
-	c, mut := t.getRangeToRead(x, l)
-	vObserve("c", c)
-	vObserve("mut", mut)
-	vAssert(mut == modified(x), "modified-iff-written")
-	vAssert(vAnd(c >= 1, c <= l), "extent-in-range")
-	d := vI64("d", 0, 64)
-	vAssume(d < c)
-	vAssert(modified(x+d) == modified(x), "extent-does-not-cross-boundary")
+	if offs[1] == offs[0]+lens[0] {
+		vCover("adjacent")
+	}
+	if vAnd(offs[1] > offs[0], offs[1]+lens[1] < offs[0]+lens[0]) {
+		vCover("nested")
+	}
+	// representation invariant: an even number of keys
+	vAssert(t.tracker.Len()%2 == 0, "even-number-of-markers")
+	vProbe(t, offs, lens)
+}
+
+// VerifC22Step: one write from an arbitrary valid pre-state of up to three
+// disjoint, non-adjacent ranges (the representation invariant), covering
+// histories of any length whose footprint stays within three ranges.
+func VerifC22Step() {
+	vBudget(6000000)
+	r := vChoose("ranges", 4) // 0..3 pre-existing ranges
+	txn := iradix.New().Txn()
+	var offs, lens []int64
+	prevEnd := int64(-2)
+	for i := 0; i < r; i++ {
+		s := vI64("s", 0, 200)
+		l := vI64("l", 1, 40)
+		vAssume(s > prevEnd) // disjoint and not adjacent: s >= prevEnd+1
+		vAssume(s+l <= 250)
+		txn.Insert(getKey(s), startFlag)
+		txn.Insert(getKey(s+l), endFlag)
+		offs = append(offs, s)
+		lens = append(lens, l)
+		prevEnd = s + l
+	}
+	t := &TFile{tracker: txn.Commit()}
+	if r == 3 {
+		vCover("three-ranges")
+	}
+	o := vI64("off", 0, 200)
+	l := vI64("len", 1, 55)
+	t.trackWrite(o, l)
+	offs = append(offs, o)
+	lens = append(lens, l)
+	n := t.tracker.Len()
+	vAssert(n%2 == 0 && n >= 2 && n <= 2*(r+1), "marker-count")
+	if r == 3 && n == 4 {
+		vCover("merged-two")
+	}
+	// invariant preserved: markers alternate start/end with strictly increasing keys, ranges non-adjacent
+	alt := true
+	wantStart := true
+	last := int64(-1)
+	t.tracker.Root().Walk(func(k []byte, v interface{}) bool {
+		key := getOffset(k)
+		alt = vAnd(alt, v.(bool) == wantStart)
+		alt = vAnd(alt, key > last)
+		wantStart = !wantStart
+		last = key
+		return false
+	})
+	vAssert(alt, "markers-alternate")
+	vProbe(t, offs, lens)
 }
